@@ -83,6 +83,9 @@ pub struct Case {
     /// blanks around the operator of X + p% / X - p% (0 or 1 each side)
     pub op_space: (u8, u8),
     pub seps: usize,
+    /// additionally evaluate the phrase with X (bit 0) and/or p (bit 1) held in a variable bound on an earlier line
+    #[serde(default)]
+    pub via: u8,
 }
 
 fn div0(a: f64, b: f64) -> f64 {
@@ -132,16 +135,28 @@ pub fn expected(c: &Case) -> Expect {
 }
 
 pub fn case_line(c: &Case) -> Line {
+    case_line_with(c, None, None)
+}
+
+/// the phrase with X and/or p replaced by a variable name
+pub fn case_line_with(c: &Case, x_name: Option<&str>, p_name: Option<&str>) -> Line {
     let kw = |w: &str| Tok::word(w, Class::Conn);
-    let x = c.x.tok();
-    let p = c.p.tok();
+    let x = match x_name {
+        Some(n) => Tok::word(n, Class::Var),
+        None => c.x.tok(),
+    };
+    let p = match p_name {
+        Some(n) => Tok::word(n, Class::Var),
+        None => c.p.tok(),
+    };
     // `10€+5%` lexes as `10` and the symbol-before literal `€+5`: a symbol written after the amount
     // needs a blank before a sign (the grammar is ambiguous there, not the property)
     let sym_after = matches!(&c.x, Amount::Money(m) if matches!(m.spelling, crate::c06::Spelling::SymAfter(_)));
-    let s0 = if sym_after { c.op_space.0.max(1) } else { c.op_space.0 };
+    let s0 = if sym_after || x_name.is_some() { c.op_space.0.max(1) } else { c.op_space.0 };
+    let p = if p_name.is_some() { p.sp(1) } else { p };
     let v = match c.phrase {
-        Phrase::Plus => vec![x, Tok::op('+').sp(s0), p.sp(c.op_space.1)],
-        Phrase::Minus => vec![x, Tok::op('-').sp(s0), p.sp(c.op_space.1)],
+        Phrase::Plus => vec![x, Tok::op('+').sp(s0), p.sp(if p_name.is_some() { 1 } else { c.op_space.1 })],
+        Phrase::Minus => vec![x, Tok::op('-').sp(s0), p.sp(if p_name.is_some() { 1 } else { c.op_space.1 })],
         Phrase::OfPX => vec![p, kw("of"), x],
         Phrase::OfXP => vec![x, kw("of"), p],
         Phrase::OnPX => vec![p, kw("on"), x],
@@ -213,6 +228,33 @@ impl Prop for PctProp {
                 Err(e) => acc.fail(e),
             }
         }
+        // metamorphic: X and/or p held in a variable bound on an earlier line give exactly the same result
+        let mut via_checked = false;
+        if acc.ok() && c.via % 4 != 0 && kf.is_none() {
+            let xn = if c.via & 1 != 0 { Some("rent") } else { None };
+            let pn = if c.via & 2 != 0 && c.phrase != Phrase::WhatPct { Some("bonus") } else { None };
+            if xn.is_some() || pn.is_some() {
+                let mut text = String::new();
+                if xn.is_some() {
+                    text.push_str(&format!("rent = {}\n", Line::new(vec![c.x.tok()]).render(dec, thou)));
+                }
+                if pn.is_some() {
+                    text.push_str(&format!("bonus = {}\n", Line::new(vec![c.p.tok()]).render(dec, thou)));
+                }
+                let line3 = case_line_with(c, xn, pn).render(dec, thou);
+                text.push_str(&line3);
+                match w.eval(&cfg, "en", &text) {
+                    Ok(o) => {
+                        via_checked = true;
+                        let last = o.slots.last().cloned().unwrap_or(Slot::Nothing);
+                        if !last.same(&slot) {
+                            acc.fail(format!("{:?} gives {} but with the operands held in variables ({:?}) it gives {}", line, slot.brief(), text, last.brief()));
+                        }
+                    }
+                    Err(pn) => acc.fail(format!("panic at {}: {}", pn.site, pn.message)),
+                }
+            }
+        }
         // non-trivial: p not in {0,100}, X != 0 and the formulas pairwise differ for this input
         let x = c.x.value();
         let p = c.p.p.value();
@@ -239,7 +281,7 @@ impl Prop for PctProp {
             Phrase::WhatPct => "A is what % of B",
             Phrase::OfWhat => "A is p% of what",
         };
-        acc.finish(rendered).nt(nt).class(cls).class_if(c.x.code().is_some(), "money").class_if(c.p.prefix, "%p-spelling").class_if(p < 0.0, "negative-percent").class_if(x < 0.0, "negative-amount").class_if(p.fract() != 0.0, "fractional-percent")
+        acc.finish(rendered).nt(nt).class(cls).class_if(c.x.code().is_some(), "money").class_if(c.p.prefix, "%p-spelling").class_if(p < 0.0, "negative-percent").class_if(x < 0.0, "negative-amount").class_if(p.fract() != 0.0, "fractional-percent").class_if(via_checked, "operands-also-via-variables")
     }
 }
 
@@ -258,13 +300,13 @@ pub fn amount_strategy() -> impl Strategy<Value = Amount> {
 }
 
 pub fn case_strategy() -> impl Strategy<Value = Case> {
-    (prop::sample::select(PHRASES.to_vec()), amount_strategy(), value_strategy(), value_strategy(), any::<bool>(), (0u8..=1, 0u8..=1), prop_oneof![3 => Just(0usize), 1 => 1usize..4]).prop_map(|(phrase, x, bv, p, prefix, op_space, seps)| {
+    (prop::sample::select(PHRASES.to_vec()), amount_strategy(), value_strategy(), value_strategy(), any::<bool>(), (0u8..=1, 0u8..=1), prop_oneof![3 => Just(0usize), 1 => 1usize..4], prop_oneof![3 => Just(0u8), 2 => 1u8..4]).prop_map(|(phrase, x, bv, p, prefix, op_space, seps, via)| {
         // `A is what % of B`: both plain or both in the same currency (the cases the statement defines)
         let b = match &x {
             Amount::Plain(_) => Amount::Plain(bv),
             Amount::Money(m) => Amount::Money(MoneyLit { amount: bv, suffix: None, ..m.clone() }.normalise()),
         };
-        Case { phrase, x, b, p: Pct { p, prefix }, op_space, seps }
+        Case { phrase, x, b, p: Pct { p, prefix }, op_space, seps, via }
     })
 }
 
@@ -283,7 +325,7 @@ pub fn table() -> Vec<Case> {
                             1 => Amount::Money(MoneyLit { amount: NumLit::new(v), suffix: None, cur: "usd".into(), spelling: crate::c06::Spelling::SymBefore }),
                             _ => Amount::Money(MoneyLit { amount: NumLit::new(v), suffix: None, cur: "try".into(), spelling: crate::c06::Spelling::CodeAfter(1, 0, 0) }),
                         };
-                        out.push(Case { phrase: ph, x: mk(x), b: mk(80.0), p: Pct { p: NumLit::new(p), prefix }, op_space: (1, 1), seps: 0 });
+                        out.push(Case { phrase: ph, x: mk(x), b: mk(80.0), p: Pct { p: NumLit::new(p), prefix }, op_space: (1, 1), seps: 0, via: if kind == 1 { 3 } else { 0 } });
                     }
                 }
             }
@@ -293,7 +335,7 @@ pub fn table() -> Vec<Case> {
 }
 
 pub fn run(ctx: &Ctx) {
-    ctx.rule("generated (X, A, B, p) from integers, fractions, negatives, zero and boundaries (100, 1e-6, 1e9), X/A/B plain or money in any rated currency and spelling, ten phrase shapes, both percent spellings, spaced and unspaced operators, 4 separator conventions; oracle = the seven textbook formulas (x/0 = 0), kind Number / Money(same currency) / Percent, tolerance 1e-9, plus metamorphic equality of the p% and %p spellings; non-trivial = p not in {0,100}, X != 0 and the formulas give pairwise different values for this input (a swapped formula cannot agree by accident)");
+    ctx.rule("generated (X, A, B, p) from integers, fractions, negatives, zero and boundaries (100, 1e-6, 1e9), X/A/B plain or money in any rated currency and spelling, ten phrase shapes, both percent spellings, spaced and unspaced operators, 4 separator conventions; oracle = the seven textbook formulas (x/0 = 0), kind Number / Money(same currency) / Percent, tolerance 1e-9, plus metamorphic equality of the p% and %p spellings, and (two cases in five) exact equality with the same phrase whose X and/or p are held in variables bound on earlier lines; non-trivial = p not in {0,100}, X != 0 and the formulas give pairwise different values for this input (a swapped formula cannot agree by accident)");
     ctx.assume("'6 %' and '% 6' are not percent literals (the lexer requires adjacency) and are not generated");
     ctx.run_table(&PctProp, "boundary-panel", table(), true);
     ctx.run_generated(&PctProp, ctx.tier.pick(150_000, 1_500_000), case_strategy);
